@@ -457,6 +457,15 @@ func checkC07(c *Ctx) {
 		}
 		o.Gen.W["stake"], o.Gen.W["delegate"], o.Gen.W["unstake"], o.Gen.W["proposal"], o.Gen.W["vote"] = 20, 20, 15, 12, 20
 		o.Blocks = c.N(24, 30)
+		if i%6 == 0 {
+			// restarts at every boundary of a history in which governance lowers the validator limit below the
+			// current set: one of the restarts falls right after the block with which the new limit comes into force
+			if o.Gen.NVal < 3 {
+				o.Gen.NVal = 3
+			}
+			o.Params.MaxValidatorCnt = int64(o.Gen.NVal)
+			withScenarios(o, scenParamChange(int64(3+c.Rng("c07-scen", i).Intn(4)), "maxValidatorCnt"))
+		}
 		hr := runHistory(c, i, c.Rng("hist-C07", i), o)
 		hr.Report("C07")
 		nb := len(hr.Results)
